@@ -74,7 +74,8 @@ ExactOK(g, ex) ==
 \* C01 applies to local polynomial grids only when every loaded point has all of its parents loaded
 NodalRequired(g) == g.fam # "localp" \/ \A p \in g.pts : AllParents(g, p) \subseteq g.pts
 ObsOKFor(g, obs) ==
-    /\ Req("obs-nodal", (Has(obs, "nodal") /\ Has(obs.nodal, "evaluate") /\ ~IsEmpty(g) /\ NodalRequired(g))
+    /\ Req(<<"obs-nodal", IF ~IsEmpty(g) /\ g.orph THEN "after-a-child-was-promoted-before-a-parent" ELSE "every-promotion-had-its-parents">>,
+           (Has(obs, "nodal") /\ Has(obs.nodal, "evaluate") /\ ~IsEmpty(g) /\ NodalRequired(g))
             => (obs.nodal.evaluate /\ obs.nodal.batch /\ obs.nodal.fast))
     /\ Req(<<"obs-routes", IF Has(obs, "routes") THEN {f \in DOMAIN obs.routes : obs.routes[f] = FALSE} ELSE {}>>, Has(obs, "routes") => AllTrue(obs.routes))
     /\ Req(<<"obs-rt", IF Has(obs, "rt") THEN {f \in DOMAIN obs.rt : obs.rt[f] = FALSE} ELSE {}>>, Has(obs, "rt") => AllTrue(obs.rt))
@@ -147,7 +148,20 @@ TBegin == IsEvent("begin") /\ Commit(Ev.o, Begin(G(Ev.o))) /\ Unch
 TFinish == IsEvent("finish") /\ Commit(Ev.o, Finish(G(Ev.o))) /\ Unch
 TLoadC == /\ IsEvent("loadc")
           /\ IF Ev.r = "skipped" THEN Ev.a.p = <<>> /\ Commit(Ev.o, [g |-> G(Ev.o), r |-> "skipped"])
-             ELSE Req("loadc-new-points", ~IsEmpty(G(Ev.o)) => Range(Ev.a.p) \cap G(Ev.o).pts = {}) /\ Commit(Ev.o, LoadC(G(Ev.o), Ev.a))
+             ELSE /\ Req("loadc-new-points", ~IsEmpty(G(Ev.o)) => Range(Ev.a.p) \cap G(Ev.o).pts = {})
+                  /\ LET g == G(Ev.o)
+                     IN IF ~IsEmpty(g) /\ g.con /\ IsLocal(g)
+                        THEN LET newp == Range(Ev.a.p)
+                                 D == [p \in (DOMAIN g.park) \cup newp |-> IF p \in newp THEN Ev.a.epoch ELSE g.park[p]]
+                                 C == DOMAIN D
+                                 lo == StrongConnected(g, g.pts, C)
+                                 hi == WeakConnected(g, g.pts, C)
+                                 N == Range(StOf(Ev.o).pts) \ g.pts              \* what the library promoted
+                             IN /\ Req(<<"loadc-promotion", "must", lo \ N, "must-not", N \ hi>>, lo \subseteq N /\ N \subseteq hi)
+                                /\ Commit(Ev.o, Ok([g EXCEPT !.pts = g.pts \cup N, !.ep = [p \in g.pts \cup N |-> IF p \in N THEN D[p] ELSE g.ep[p]],
+                                                            !.park = Restrict(D, C \ N), !.init = g.init \ C,
+                                                            !.orph = g.orph \/ \E p \in N : ~(AllParents(g, p) \subseteq g.pts \cup N)]))
+                        ELSE Commit(Ev.o, LoadC(g, Ev.a))
           /\ Unch
 TNop == IsEvent("nop") /\ Commit(Ev.o, Ok(G(Ev.o))) /\ Unch
 \* continuing on the object restored from its own file image is the identity (C06)
